@@ -90,6 +90,21 @@ CHECKS = {
         technique="exhaustive product of an API table of every externally reachable pub fn x 8 graph kinds x every small graph x every argument tuple, executed with overflow checks on; oracle: no panic / overflow / hang, absent name => Err/None",
         text="A table of all 101 externally reachable functions (cross-checked at run time against `pub fn` in /repo/src, so a new API cannot escape) is called on every labelled graph with n<=2 (unweighted, weights {1,2}) and n=3 (unweighted) of all 8 kinds plus named degenerate n=4-5 shapes, with every argument tuple over the graph's names, all booleans, k=1..n+1, all subsets, option menus, and one absent name for functions with an error channel; built with overflow-checks and debug-assertions, Louvain sweeps observed so a hang is a finding not a timeout.",
         note="Trusted: catch_unwind + panic hook capturing file:line; the sweep observer. Functions without an error channel get present names only, as the statement says."),
+    "C07": dict(
+        engine="E4 rayon-contract schedule explorer", category="model_checking", design_ref="DESIGN.md §5 C07, §3 E4",
+        technique="stateless exploration of schedules of the real parallel drivers under a contract model of rayon patched in for the whole dependency graph: deviation-bounded at the production threshold, exhaustive (all N! orders, all splits) with the parallel path forced on small graphs; conformance of the model against real rayon pools",
+        text="graphrs is rebuilt with rayon replaced (cargo [patch]) by a contract model whose scheduler the explorer owns: execution order of the work items, reduction split trees, fold/map_init segmentations, join order and current_num_threads(). Stage A: graphs with 21-24 nodes x the five functions: every schedule with at most d deviations from in-order execution. Stage B: with the parallel path forced by a hook on every small graph of the families: ALL schedules. Every schedule's result must be bit-identical (to_bits digests of all distances, path lists and centralities) to the single-threaded result. Stage C/D validates the model against real rayon: the same calls inside caller-installed pools of 1..16 threads and the global pool, and concurrent read-only calls from several threads, must reproduce the single-threaded digests.",
+        note="Trusted: shims/rayon implements rayon's documented contract (each item once, arbitrary order, indexed collect in index order, arbitrary reduction tree / segmentation). Items run to completion one at a time: sound while work items cannot communicate (token audit of /repo/src + compile-time Sync assertion, reported in the evidence); races inside concurrently running items are only sampled by the real-rayon stage."),
+    "C14": dict(
+        engine="E5-style product enumerator", category="model_checking", design_ref="DESIGN.md §5 C14",
+        technique="exhaustive product enumeration of names x shapes x weights x specs through write-then-read, plus every f64 exponent x boundary mantissas; oracle: structural and to_bits equality",
+        text="Names from a 21-string menu (empty, spaces, XML specials, entity look-alikes, CDATA/comment terminators, non-ASCII, astral) as singles, ordered pairs and ordered triples x every edge shape with <= 3 edges incl. self-loops and parallel edges x directed/undirected x weight patterns from a 14-value menu (signed zero, subnormals, f64::MAX, +-inf, unweighted) x spec variants; plus a single edge carrying every bit pattern of {all 2047 exponents} x {6 boundary mantissas} x {+,-}. read(write(g), g.specs) must have the same names in the same order, the same directedness and the same edge multiset with bit-identical weights; file and string variants must give the same document.",
+        note="Not all 2^64 weights (all exponents, boundary mantissas); control characters excluded as in the statement."),
+    "C19": dict(
+        engine="E5 document fault enumerator", category="fault_enumeration", design_ref="DESIGN.md §5 C19",
+        technique="exhaustive single-point (every byte position x 13 fault kinds) and pairwise fault enumeration of base documents plus grammar-generated near-GraphML documents; oracle: no panic/overflow/hang, and Ok(g) must equal the reference interpretation of the document",
+        text="Four base documents (two written by the library, one hand-written with every construct the reader looks at, one minimal) x EVERY byte position x {delete, duplicate, truncate, overwrite with 10 structural characters}; every PAIR of such faults on the minimal base; a grammar of key / graph / node / edge / data variants (attributes present, absent, duplicated, with entities; text menus incl. non-numeric weights); stressors. Each document is read under 2-4 spec combinations inside catch_unwind with a watchdog. If the reader returns a graph and the harness's own tokenisation of the document finds exactly one start-form graph, the graph's directedness, nodes, edges (and comparable weights) must equal the C01 reference model applied to the document's elements.",
+        note="Trusted: quick-xml (used directly for the harness's own tokenisation), the C01 reference model. Faulted documents that stop being UTF-8 cannot be passed as &str and are counted and skipped."),
 }
 
 PENDING = {}
@@ -133,6 +148,12 @@ def main():
              "kind_free_text": "explicit-state breadth-first search over mutation histories executed on the real Graph (state key: canonical snapshot of all private indexes via the feature-guarded accessor), reference model in harness/src/model.rs"},
             {"name": E2, "path": "harness/src/e2.rs", "serves_properties": [p for p in ["C04", "C05", "C06", "C08", "C10", "C11", "C12", "C13", "C17", "C18", "C20"] if p in CHECKS],
              "kind_free_text": "generates every labelled graph of a family (kind x n x every slot assignment over a small weight alphabet x insertion-order variants) on the real Graph and calls the function under test with every argument combination; brute-force oracles in harness/src/oracle.rs; E3 (harness/src/e3.rs) adds exhaustive / deviation-bounded exploration of hash-order choice points through the verif_hooks order seam"},
+            {"name": "E4 rayon-contract schedule explorer", "path": "harness-par/src/main.rs + shims/rayon", "serves_properties": ["C07"] if "C07" in CHECKS else [],
+             "kind_free_text": "second workspace in which cargo [patch.crates-io] replaces rayon by a contract model; a DFS over scheduler choice sequences with iterative deviation bounding runs the unmodified graphrs drivers under every schedule"},
+            {"name": "E5 document fault enumerator", "path": "harness/src/c19.rs, c14.rs", "serves_properties": [p for p in ["C14", "C19"] if p in CHECKS],
+             "kind_free_text": "every single-point fault (and pairs) of base GraphML documents, grammar-generated documents, and the write/read product enumeration"},
+            {"name": "E6 skipping-walk chain explorer", "path": "harness/src/c16.rs", "serves_properties": ["C16"] if "C16" in CHECKS else [],
+             "kind_free_text": "explicit-state exploration of the G(n,p) generator's cursor chain under an injected RngCore with full transition conformance"},
         ],
         "checks": checks,
         "notes": "Driver: ./check <ID> quick|thorough [--replay path]; exit 0 held / 1 VIOLATION / 2 machinery failure. Known findings: /verif/known_findings.json. Replay files: /verif/replays/<ID>/.",
